@@ -249,7 +249,7 @@ func (c *LocalActionsCache) FindMetadata(spec string) (*ActionMetadata, bool, er
 		if m, ok := c.writeCache(spec, nil); ok { // Remember action was invalid
 			return m, true, nil
 		}
-		msg := strings.ReplaceAll(err.Error(), "\n", " ")
+		msg := replaceLineBreaks(err.Error())
 		return nil, false, fmt.Errorf("could not parse action metadata in %q: %s", dir, msg)
 	}
 	meta.file = f
